@@ -323,7 +323,7 @@ pub fn c02_refusals(rp: &Position, b: &Board, legal: &[Mv], sweep: bool, st: &mu
     }
     let sentinel = Board::standard();
     for (i, m) in offers.into_iter().enumerate() {
-        let same = |a: &Board, b: &Board| if i < n_near.min(6) { bits_equal(a, b) } else { cheap_equal(a, b) };
+        let same = |a: &Board, b: &Board| if i < n_near.min(2) { bits_equal(a, b) } else { cheap_equal(a, b) };
         st.illegal_offers += 1;
         let rm: ChessMove = real_mv(m);
         let cls = mv_class(rp, m);
